@@ -304,12 +304,15 @@ def run_gated(case: dict[str, Any], launch, n: int, first_lines: list[str]) -> d
             if not done.wait(EVENT_WAIT_S):
                 raise Hang("the call did not return after every task was released")
         except Hang as h:
-            obs["hang"] = str(h)
+            # The real run left the scripted schedule (or an expected event never came): stop steering,
+            # open every gate and let the call finish; it is a hang only if it still does not return.
+            obs["deviation"] = str(h)
             gate.open_all()
             for _ in range(4 * n + 4):
                 cb.sem.release()
-            done.wait(5.0)
-    if obs["hang"] is None:
+            if not done.wait(EVENT_WAIT_S):
+                obs["hang"] = str(h)
+    if obs["hang"] is None and "deviation" not in obs:
         if "X" not in lines:
             lines.append("X")
         lines.extend(f"T {wid}" for wid in range(len(idents)))
@@ -435,6 +438,8 @@ def result_string(obs: dict[str, Any]) -> str:
 def compare_with_model(obs: dict[str, Any], answers: list[str]) -> str | None:
     """First difference between the observed run and the model run on the same transitions."""
     lines = obs["lines"]
+    if obs.get("deviation"):
+        return f"the real run left the schedule the model allows: {obs['deviation']} (observed starts {obs.get('started')})"
     for ln, a in zip(lines, answers):
         if a in ("disabled", "no-init", "bad-op", "bad-init"):
             return f"model answers `{a}` to transition `{ln}` observed in the real run"
